@@ -98,6 +98,10 @@ def install(E):
     nn.entries["Conv2d"] = CONV2D_CLS
     nn.entries["LayerNorm"] = LAYERNORM_CLS
     nn.entries["functional"] = Namespace("torch.nn.functional")
+    for fname, impl in FUNCTIONALS.items():
+        nn.entries["functional"].entries[fname] = make_torch_function(fname, impl)
+    for fname in ("topk",):
+        torch.entries[fname] = make_torch_function(fname, lambda E2, *a, **k: (_ for _ in ()).throw(Unsupported(f"torch.{fname} semantics")))
     nn.entries["modules"] = Namespace("torch.nn.modules")
     # torch.library
     lib = Namespace("torch.library")
@@ -159,6 +163,53 @@ def install(E):
     insp = Namespace("inspect")
     E.ext_modules["inspect"] = insp
     insp.entries["signature"] = Builtin("signature", inspect_signature)
+
+
+def make_torch_function(name, impl):
+    """A python-level torch function: with a tensor-subclass argument it is routed to that class's __torch_function__
+    (A-TORCH-DISPATCH) unless torch function dispatch is disabled; otherwise its composite implementation runs."""
+    holder = {}
+
+    def f(E, *args, **kwargs):
+        from .tm_tensor import collect_wrappers
+
+        ws = collect_wrappers([list(args), kwargs], [])
+        if ws and not E.ps.get("tf_disabled"):
+            for w in ws:
+                tf, _ = w.cls.lookup("__torch_function__")
+                if isinstance(tf, Token):
+                    continue  # _disabled_torch_function_impl
+                if tf is not None:
+                    types = tuple({id(x.cls): x.cls for x in ws}.values())
+                    return E.call(BoundMethod(w.cls, tf), [holder["fn"], types, tuple(args), dict(kwargs)], {})
+        return impl(E, *args, **kwargs)
+
+    b = Builtin("torch.nn.functional." + name, f)
+    holder["fn"] = b
+    return b
+
+
+def _F_linear(E, input, weight, bias=None):
+    from .tm_tensor import call_aten
+
+    wt = call_aten(E, AtenOp("t"), [weight], {})
+    out = call_aten(E, AtenOp("matmul"), [input, wt], {})
+    if bias is not None:
+        out = call_aten(E, AtenOp("add"), [out, bias], {})
+    return out
+
+
+def _F_unmodelled(name):
+    def f(E, *a, **k):
+        from .tm_tensor import uninterpreted_function_result
+
+        return uninterpreted_function_result(E, name, a, k)
+    return f
+
+
+FUNCTIONALS = {"linear": _F_linear, "layer_norm": _F_unmodelled("layer_norm"), "cross_entropy": _F_unmodelled("cross_entropy"),
+               "cosine_similarity": _F_unmodelled("cosine_similarity"), "log_softmax": _F_unmodelled("log_softmax"),
+               "conv2d": _F_unmodelled("conv2d"), "pad": _F_unmodelled("pad")}
 
 
 class TypingThing:
